@@ -526,6 +526,7 @@ type Guarded struct {
 	Mutex    *Expr
 	Locs     []*Expr
 	Monitor  []*Clause
+	Assumed  []*Clause // history assumptions: assumed at every acquire, never asserted (listed in the evidence)
 	Pkg      string
 }
 
@@ -545,7 +546,7 @@ var clauseKeywords = map[string]bool{
 	"func": true, "interface": true, "functype": true, "spec": true, "axiom": true, "lemma": true,
 	"ghostfield": true, "guarded_by": true, "monitor": true, "tags": true, "requires": true, "ensures": true,
 	"modifies": true, "loop": true, "invariant": true, "decreases": true, "ghost": true, "trusted": true,
-	"inline": true, "pure": true, "ghost_at_return": true, "call": true, "const": true, "nosafety": true, "opt": true, "decoder": true, "encoder": true, "progress": true,
+	"inline": true, "pure": true, "ghost_at_return": true, "call": true, "const": true, "nosafety": true, "opt": true, "decoder": true, "encoder": true, "progress": true, "monitor_assume": true,
 }
 
 // logicalLines strips the comment prefix and joins continuation lines.
@@ -1060,6 +1061,15 @@ func ParseSpecFile(path, pkg string, isGo, trusted bool) (*SpecFile, error) {
 			sf.Guards = append(sf.Guards, g)
 			curGuard = g
 			cur = nil
+		case "monitor_assume":
+			if curGuard == nil {
+				return nil, fail(i, "monitor_assume outside guarded_by")
+			}
+			cl, err := mkClause("monitor_assume")
+			if err != nil {
+				return nil, err
+			}
+			curGuard.Assumed = append(curGuard.Assumed, cl)
 		case "monitor":
 			if curGuard == nil {
 				return nil, fail(i, "monitor outside guarded_by")
